@@ -28,6 +28,11 @@ def cases(tier, seed):
             for k, part in enumerate([seqs[i::4] for i in range(4)]):
                 out.append({"kind": "var", "func": f, "ddof": ddof, "N": N, "G": G, "codes_list": [list(c) for c in part],
                             "name": f"GroupBy.{f}(ddof={ddof})/N={N},G={G}/{len(part)} code sequences x all null patterns (part {k})"})
+    # var/std with transform=True through the REAL _apply_gb_reduction(transform=True): every row gets its group's variance
+    tseqs = seqs[::4] if tier == "quick" else seqs[::2]
+    for f in ("var", "std"):
+        out.append({"kind": "var", "func": f, "ddof": 1, "N": N, "G": G, "transform": True, "codes_list": [list(c) for c in tseqs],
+                    "name": f"GroupBy.{f}(ddof=1, transform=True)/N={N},G={G}/{len(tseqs)} code sequences x all null patterns"})
     Na = 4 if tier == "quick" else 5
     aseqs = list(itertools.product(range(-1, 3), repeat=Na))
     for ncols in (1, 2):
@@ -106,7 +111,8 @@ def run_var(E, case):
             return FakeSeries(c[:n], self.result_index)
         return FakeSeries(r[:n], self.result_index)
     try:
-        GB._apply_gb_reduction = kernel_level_reduction
+        if not case.get("transform"):
+            GB._apply_gb_reduction = kernel_level_reduction
         for codes in case["codes_list"]:
             members = {g: [i for i in range(N) if codes[i] == g] for g in range(G)}
             for nulls in itertools.product([False, True], repeat=N):
@@ -120,13 +126,25 @@ def run_var(E, case):
                 rt = fresh_runtime()
                 gb = make_gb(E, G, codes=A(list(codes), "int64"))
                 vals = A(xs, "float64").tag("input:values")
-                out = getattr(gb, f)(vals, ddof=ddof)
+                if case.get("transform"):
+                    out = getattr(gb, f)(vals, ddof=ddof, transform=True)
+                else:
+                    out = getattr(gb, f)(vals, ddof=ddof)
                 out = out.arr if isinstance(out, FakeSeries) else out
                 bl = []
-                for g in range(G):
+                if case.get("transform") and len(out.cells) != N:
+                    bl.append((f"transform result has {len(out.cells)} rows", True))
+                    dec = decide(inp, bl, rt, timeout_ms=60_000)
+                    _merge(res, dec, case, {"codes": list(codes), "nulls": [bool(b) for b in nulls]}, f"{f}:transform")
+                    continue
+                targets = [(g, g) for g in range(G)] if not case.get("transform") else [(i, codes[i]) for i in range(N)]
+                for pos, g in targets:
+                    if g < 0:
+                        bl.append((f"{f}: row {pos} with a null key gets null", b_not(SF.of(out.cells[pos]).nan)))
+                        continue
                     valid = [vs[i] for i in members[g] if not nulls[i]]
                     n = len(valid)
-                    r = SF.of(out.cells[g])
+                    r = SF.of(out.cells[pos])
                     if n - ddof <= 0:
                         bl.append((f"{f}[g={g}] null with {n} value(s)", b_not(r.nan)))
                         continue
@@ -137,7 +155,7 @@ def run_var(E, case):
                     else:
                         bl.append((f"std[g={g}]^2 == two-pass variance, std >= 0", b_not(b_and(same(r * r, tp), b_or(r.nan, r.v >= 0)))))
                 dec = decide(inp, bl, rt, timeout_ms=60_000)
-                _merge(res, dec, case, {"codes": list(codes), "nulls": [bool(b) for b in nulls]}, f"{f}:ddof={ddof}")
+                _merge(res, dec, case, {"codes": list(codes), "nulls": [bool(b) for b in nulls]}, f"{f}:ddof={ddof}" + (":transform" if case.get("transform") else ""))
     finally:
         GB._apply_gb_reduction = saved
         Config.sq_uninterpreted, Config.div_uninterpreted = old
@@ -691,6 +709,22 @@ def replay(case, conc, cand=None):
             xs = [float("nan") if case["nulls"][i] else float(conc["x"][i]) for i in range(N)]
             keys = pd.Series([float(c) if c >= 0 else float("nan") for c in codes])
             gb = GroupBy(keys)
+            if case.get("transform"):
+                got = real_np.asarray(getattr(gb, case["func"])(real_np.array(xs), ddof=case["ddof"], transform=True), dtype=float)
+                bad = []
+                for i in range(N):
+                    vals = [xs[j] for j in range(N) if codes[j] == codes[i] and codes[i] >= 0 and xs[j] == xs[j]]
+                    n = len(vals)
+                    if n - case["ddof"] <= 0:
+                        exp = float("nan")
+                    else:
+                        m = sum(vals) / n
+                        exp = sum((v - m) ** 2 for v in vals) / (n - case["ddof"])
+                        if case["func"] == "std":
+                            exp = exp ** 0.5
+                    if len(got) != N or not approx_same(float(got[i]), exp):
+                        bad.append(i)
+                return bool(bad), {"transform": jsonable(list(got)), "wrong_rows": bad, "x": jsonable(xs), "codes": codes}
             got = getattr(gb, case["func"])(real_np.array(xs), ddof=case["ddof"])
             bad = []
             detail = {}
